@@ -71,7 +71,9 @@ def run(chk):
                 'ended by transport loss; the implementation state dump after the history is judged by the Coq checker '
                 'c11_final; non-trivial = binary packet, outstanding callback or raising handler involved; distinct by effect signature',
                 nontrivial, prop_sig, tweak=close_all)
-    if not chk.broken:
+    broken_before = bool(chk.broken)
+    overlap(chk)        # also when the sequential part disagrees with the model: the two parts are independent
+    if not broken_before and not chk.broken:
         graph_growth(chk)
 
 
@@ -123,5 +125,149 @@ def graph_growth(chk):
                       {'generations': [n, 2 * n], 'sizes': [a, b]})
 
 
+# ---- histories with overlapping handler tasks (async_handlers=True, the library default) ----
+Q_IMPORTS = 'From VT Require Import Check.SrvCheck Check.C11Check.'
+Q_KINDS = {1: 'rooms', 2: 'pending', 3: 'callbacks', 4: 'environ', 5: 'binary-packet', 6: 'session', 7: 'not-fresh'}
+
+
+def overlap_knobs():
+    k = server_hist.Knobs(n_ops=22, refuse=0.15, actions=0.45, raise_p=0.12, max_clients=4)
+    k.w.update({'connect': 6, 'event': 9, 'close': 2.5, 'client_disconnect': 2.5, 'emit_cb': 1.5, 'emit': 2, 'binary': 1.0,
+                'junk': 0.3, 'ack': 1.0, 'disconnect': 1.0, 'session': 0.8, 'rooms': 0.3, 'close_room': 0.5})
+    return k
+
+
+def overlap_history(rng, k=None):
+    """A server history whose handlers additionally emit WITH a callback (to their own sid, to rooms) and
+    yield to the event loop; every transport is ended at the end."""
+    cfg, ops = server_hist.gen_history(rng, k or overlap_knobs())
+    cfg, ops = close_all(rng, cfg, ops)
+    cb = 1000
+    for hid, b in cfg['behav'].items():
+        if rng.random() < 0.5:
+            acts = list(b['actions'])
+            for _ in range(rng.randrange(1, 3)):
+                r = rng.random()
+                cb += 1
+                if r < 0.45:
+                    a = ('emit_self_cb', 'confirm', rng.choice([None, 'x', {'ok': True}]), cb)
+                elif r < 0.65:
+                    a = ('emit_room_cb', 'poll', 'q', rng.choice(server_hist.ROOMS[:3] + [None]), rng.random() < 0.5, cb)
+                else:
+                    a = ('yield', rng.randrange(1, 4))
+                acts.insert(rng.randrange(len(acts) + 1), a)
+            b['actions'] = acts
+    return cfg, ops
+
+
+def q_sig(mode, code, cfg=None):
+    """Structural class from the kinds of residue the Coq checker reports (c11_kinds via c11q_eval)."""
+    kinds = [Q_KINDS[i] for i in sorted(Q_KINDS) if code >> (i + 1) & 1]
+    if kinds in (['pending'], ['pending', 'not-fresh']) and cfg is not None and cfg.get('always_connect'):
+        tables = list(cfg.get('handlers', {}).values()) + list(cfg.get('ns_handlers', {}).values())
+        outs = [cfg['behav'][t['connect']]['outcome'] for t in tables if 'connect' in t]
+        if any(o[0] == 'refuse' or o == ('ret', False) for o in outs):
+            # connect handler still running when the transport ends, then refuses: pre_disconnect() appends
+            # the sid and fails on the vanished namespace, basic_disconnect() returns early
+            return 'always-connect-refusal-after-transport-end-leaves-pending'
+    return 'overlapping-handlers-%s-residue-%s' % (mode, '-'.join(k for k in kinds if k != 'not-fresh') or 'not-fresh')
+
+
+def q_eval(tag, runs, overlaps=None):
+    """runs: list of (cfg, ops, mode, sched).  Returns ({index: code}, errors, n evaluated)."""
+    from drivers import async_tasks
+    terms, idx, errors = [], [], []
+    for j, (cfg, ops, mode, sched) in enumerate(runs):
+        try:
+            dumps, n_over = async_tasks.run_overlap(cfg, ops, mode, sched)
+            terms.append(async_tasks.qcase_term(dumps))
+            idx.append(j)
+            if overlaps is not None:
+                overlaps[j] = n_over
+        except Exception as e:
+            errors.append('driver error on overlap history %d (%s): %r' % (j, mode, e))
+    codes, errs = coqio.eval_cases(tag, Q_IMPORTS, '', 'qcase', terms, 'c11q_eval', shard=50)
+    return {idx[i]: c for i, c in codes.items()}, errors + ['case evaluation failed: ' + e for e in errs], len(terms)
+
+
+def q_shrink(cfg, ops, mode, sched, sig, budget=10):
+    """Delta debugging over (operation, schedule entry) pairs; every round is one coqc call."""
+    cur = list(zip(ops, sched))
+    chunk = max(1, len(cur) // 2)
+    for _ in range(budget):
+        if len(cur) <= 1:
+            break
+        cands = [cur[:i] + cur[i + chunk:] for i in range(0, len(cur), chunk)]
+        cands = [c for c in cands if c]
+        codes, errors, _n = q_eval('c11q_shr', [(cfg, [o for o, _ in c], mode, [s for _, s in c]) for c in cands])
+        if errors:
+            break
+        hit = next((cands[j] for j in sorted(codes) if q_sig(mode, codes[j], cfg) == sig), None)
+        if hit is not None:
+            cur = hit
+            chunk = max(1, min(chunk, len(cur) // 2))
+        elif chunk == 1:
+            break
+        else:
+            chunk = max(1, chunk // 2)
+    return [o for o, _ in cur], [s for _, s in cur]
+
+
+def overlap(chk):
+    from drivers import async_tasks
+    rng = chk.rng.sub('overlap')
+    n = 2500 if chk.thorough else 300
+    runs = []
+    for i in range(n):
+        cfg, ops = overlap_history(rng)
+        sched = async_tasks.gen_schedule(rng, ops)
+        for mode in ('async', 'sync'):
+            runs.append((cfg, ops, mode, sched))
+        if i % 3 == 0:       # the same history under a second schedule (asyncio)
+            runs.append((cfg, ops, 'async', async_tasks.gen_schedule(rng, ops)))
+    overlaps = {}
+    codes, errors, n_eval = q_eval('c11q', runs, overlaps)
+    for e in errors:
+        chk.broken_obligation(e)
+    chk.traces_validated += n_eval
+    chk.rule += ('; PLUS histories run with async_handlers=True (handler tasks / deferred handler calls overlapping the following '
+                 'operations, drivers/async_tasks.py), judged by c11q_eval on the quiescent dumps only; non-trivial there = at '
+                 'least one operation began while a handler body was suspended or queued; distinct by operation kinds and schedule')
+    for j, (cfg, ops, mode, sched) in enumerate(runs):
+        key = None
+        if overlaps.get(j):
+            key = ('overlap', mode, tuple(o[0] for o in ops), tuple((h, y) for h, y, _, _ in sched))
+        chk.count(1, key, None)
+        chk.dist('overlap %s %s' % (mode, 'overlapping' if overlaps.get(j) else 'no overlap'))
+    chk.extra['overlap_histories'] = {'runs': len(runs), 'evaluated': n_eval}
+    seen = {}
+    for j in sorted(codes):
+        sig = q_sig(runs[j][2], codes[j], runs[j][0])
+        if sig not in seen and len(seen) < 4:
+            seen[sig] = j
+    for sig, j in seen.items():
+        cfg, ops, mode, sched = runs[j]
+        try:
+            ops_s, sched_s = q_shrink(cfg, ops, mode, sched, sig)
+        except Exception:
+            ops_s, sched_s = ops, sched
+        chk.violation(sig, 'with async_handlers=True (handler tasks overlapping the following operations) the %s server keeps '
+                      'state for a departed client at a quiescent point (Coq checker c11_final on the state dump)' % mode,
+                      {'kind': 'overlap', 'py': repr((cfg, ops_s, mode, sched_s))})
+
+
 def replay(chk, data):
+    if data['replay'].get('kind') == 'overlap':
+        import ast
+        from drivers import async_tasks
+        cfg, ops, mode, sched = ast.literal_eval(data['replay']['py'])
+        codes, errors, _n = q_eval('c11q_replay', [(cfg, ops, mode, sched)])
+        print('checker code (0 = fine; 2 + residue kinds):', codes.get(0, 0), errors)
+        for o, s in zip(ops, sched):
+            print(o, s)
+        for d in async_tasks.run_overlap(cfg, ops, mode, sched)[0]:
+            print('quiescent dump:', d)
+        if codes.get(0, 0):
+            print('signature:', q_sig(mode, codes[0], cfg))
+        return 0 if not codes and not errors else 1
     return srvprop.replay(chk, data, 'c11')
